@@ -49,8 +49,8 @@ def static(name, ok, detail="", fn=None, level="P", meta=None):
     return Obl(name, verdict="proved" if ok else "refuted", detail=detail, fn=fn, level=level, kind="static", meta=meta)
 
 
-def undecided(name, why, fn=None, level="P"):
-    return Obl(name, verdict="undecided", detail=why, fn=fn, level=level, kind="static")
+def undecided(name, why, fn=None, level="P", meta=None):
+    return Obl(name, verdict="undecided", detail=why, fn=fn, level=level, kind="static", meta=meta)
 
 
 def _val(v):
